@@ -55,9 +55,9 @@ func c17path(r *rand.Rand, root reflect.Value) (data.Path, string, bool) {
 
 func c17n(tier string) int {
 	if tier == "thorough" {
-		return 400000
+		return 2000000
 	}
-	return 12000
+	return 50000
 }
 
 type c17lookup struct {
